@@ -17,6 +17,7 @@ RULE = (
     "thickness; conductivity; beam section) and a linear field (integer-grid gradient and offset); the field is imposed "
     "with add_dirichlet on the boundary nodes (lambda or nodal-array form) and the full Solve() pipeline is run. "
     "Non-trivial = at least one free interior node and a non-zero (symmetric) gradient; distinct = sha1 of the case."
+    ' large_patch (round 8): two enumerated patch tests with more than 40 000 unknowns after elimination on a sheared QUAD4 grid.'
 )
 ASSUMPTIONS = [
     "closed-form oracle: u = G x + c at every node; strain = sym(G); stress = material.C : sym(G) (C itself is C11's business)",
